@@ -510,3 +510,7 @@ Definition first_bad (h : list (op Q * obs)) : Z * Z := first_bad_from init 0 h.
 
 (* the stream classification used by the harness, decided by the model itself *)
 Definition clean_hist (h : list (op Q * obs)) : bool := hist_ok tie_safe init (map fst h).
+(* one boolean per generated history: the model reproduces every observation AND classifies the
+   history as the harness stream claims (clean / known-finding pattern) *)
+Definition check_clean (h : list (op Q * obs)) : bool := check_hist h && clean_hist h.
+Definition check_known (h : list (op Q * obs)) : bool := check_hist h && negb (clean_hist h).
